@@ -69,5 +69,7 @@ class EFLRSetsDict(defaultdict):
     def get_all_items_for_set_type(self, eflr_set_type: type[EFLRSet]) -> Generator[AnyEFLRItem, None, None]:
         """Retrieve all EFLRItem instances registered for all instances of given EFLRSet subclass."""
 
-        for value in self[eflr_set_type].values():
+        # a plain look-up: self[...] would insert the missing key into this defaultdict and thereby change
+        # the order in which the sets are later written to the file
+        for value in self.get(eflr_set_type, {}).values():
             yield from value.get_all_eflr_items()
